@@ -557,7 +557,8 @@ var sharedVar = 3
 	if p.tests {
 		c.Files[p.name+"/a_test.go"] = strings.ReplaceAll(`package p@
 
-var fromTest@ = onlyTest@() + helper@() + sharedName() + sharedType{}.f
+// FromTest@ is exported and therefore used.
+var FromTest@ = onlyTest@() + helper@() + sharedName() + sharedType{}.f + sharedVar
 
 func helper@() int { return 1 }
 
